@@ -236,7 +236,7 @@ PROPS = {
     ),
     "C08": dict(
         level="other",
-        contracts=["contracts.directives"],
+        contracts=["contracts.directives", "contracts.rundirective"],
         harness=True,
         explanation=(
             "PROVED (all argument texts and declarations): parse_directive_arguments returns between `required` and "
@@ -247,7 +247,8 @@ PROPS = {
             "lines; otherwise, without an option spec, the body IS the content's lines from body_offset on (0 or 1: at most one "
             "leading blank line is dropped, and it is counted); with an option spec len(body) + body_offset equals the "
             "number of content lines (WHICH lines survive is _parse_directive_options' business - its known findings "
-            "C08-trailing-blank-offset / C08-closing-delimiter-text live there); a directive without arguments gets none.  BOUNDED for the rest (what "
+            "C08-trailing-blank-offset / C08-closing-delimiter-text live there); a directive without arguments gets none; run_directive (prefix up to the directive's run) passes the parsed arguments, "
+            "body and body_offset on to the directive unchanged (statement contracts), with the fence line as the position option problems are reported at.  BOUNDED for the rest (what "
             "_parse_directive_options does with the option block): parse_directive_text against a line-level reference model taken from the statement "
             "(body = the content lines after the option block minus one optional leading blank line; offset = index of the "
             "first body line) for every content of up to 3/4 lines over an option/blank/text/delimiter vocabulary x 5 "
@@ -305,7 +306,7 @@ PROPS = {
     ),
     "C04": dict(
         level="other",
-        contracts=["contracts.lines", "contracts.directives", "contracts.render2"],
+        contracts=["contracts.lines", "contracts.directives", "contracts.render2", "contracts.rundirective"],
         flow=["checks.flow_lines:run"],
         harness=True,
         explanation=(
@@ -318,9 +319,13 @@ PROPS = {
             "leading front-matter token) with every mapped token starting `lineno` lines below where the parser saw it - "
             "so node.line = parser line + lineno + 1 for text found at 0-based offset lineno - and restores the heading "
             "offset; the renderers of code blocks (indented and fenced, strict modes), images, block breaks, amsmath and labelled math "
-            "attach a node whose line is the token's 1-based first line (a token without a map gives no line); parse_directive_text's body_offset counts exactly the content lines in front of the body (see C08).  FLOW: no other store to a `.map` attribute exists in the package (frame of the above).  NOT under "
-            "contract: the offsets callers pass as `lineno` (run_directive / MockState.nested_parse / _parse_directive_options / "
-            "include), hence BOUNDED: generated documents whose generator knows the first line of "
+            "attach a node whose line is the token's 1-based first line (a token without a map gives no line); parse_directive_text's body_offset counts exactly the content lines in front of the body (see C08).  FLOW: no other store to a `.map` attribute exists in the package (frame of the above).  The directive "
+            "path is pinned by statement contracts: render_directive hands run_directive the token's text and its 1-based fence line; run_directive "
+            "(prefix up to the point where the directive runs) splits the text with that line as position, and builds the directive with "
+            "lineno = that line, content = exactly the parsed body, content_offset = the parsed body_offset, and a MockState / "
+            "MockStateMachine positioned at that line (MockState.__init__ stores them: proved); render_colon_fence sends `:::{name}` down the same path and renders a plain "
+            "`:::` container's content as nested text starting on the line after the fence.  NOT under "
+            "contract: what _parse_directive_options reports as content, the include directive's start line, substitutions, hence BOUNDED: generated documents whose generator knows the first line of "
             "every construct (paragraph, heading, list item, code block, raw HTML, table) nested up to depth 3 in block "
             "quotes, lists, backtick and colon directives with no / ':'-style / '---'-style option blocks and optional blank "
             "line before the body; warning lines of roles planted at known lines; included files (line relative to the "
@@ -387,7 +392,7 @@ PROPS = {
     ),
     "C06": dict(
         level="other",
-        contracts=["contracts.lines"],
+        contracts=["contracts.lines", "contracts.rundirective"],
         harness=True,
         explanation=(
             "PROVED (pyvc, relative to the docutils node model and the assumed induction hypothesis G' for the dynamic "
@@ -397,8 +402,10 @@ PROPS = {
             "for; afterwards the current node and match_titles are what they were, `node` keeps what it had, and every "
             "other node that existed keeps its children, parent and kind (everything the body produced is below `node`); "
             "nested_render_text itself carries G' through (parses the text, drops a leading front-matter token, shifts the "
-            "lines, renders, restores heading offset / open-section map / temporary root).  NOT under contract: "
-            "run_directive, render_fence / render_colon_fence, MockIncludeDirective.run, render_substitution; the ownership "
+            "lines, renders, restores heading offset / open-section map / temporary root).  The way into a directive is under contract too (contracts/rundirective.py): "
+            "render_directive / render_colon_fence / run_directive hand the directive its text, the line of its fence and a MockState at that line, and attach "
+            "the nodes it returns below the current node (G' carried through, relative to the assumed view that a directive's run() obeys G' and returns new nodes).  NOT under contract: "
+            "MockIncludeDirective.run, render_substitution; the ownership "
             "half (shared md_env, restored renderer state) is in C15's frame pass.  BOUNDED: nodes produced inside a note "
             "directive body at depth 1-4, backtick and colon fences, equal the "
             "nodes of the same generated Markdown at top level; include and block substitution equal the text in place; "
